@@ -196,7 +196,7 @@ void mzd_row_clear_offset(mzd_t *M, rci_t row, rci_t coloffset) {
   /* make sure to start clearing at coloffset */
   if (coloffset % m4ri_radix) {
     temp = truerow[startblock];
-    temp &= __M4RI_RIGHT_BITMASK(m4ri_radix - coloffset);
+    temp &= __M4RI_RIGHT_BITMASK(m4ri_radix - coloffset % m4ri_radix);
   } else {
     temp = 0;
   }
